@@ -1,5 +1,5 @@
 From Coq Require Import ZArith List Bool.
-From EP Require Import C15.Model.
+From EP Require Import C15.Model C15.Keys.
 Import ListNotations.
 Open Scope Z_scope.
 (* maps are encoded as lists of (key :: value) rows; [[-9]] = error *)
@@ -22,3 +22,15 @@ Definition run_arr (f : Z) (a : xarray) (i j : Z) (v : value) (ps : list Z) (oth
   | 7 => enc_ares (array_subarray a i (Some j)) | 8 => enc_ares (array_head a) | 9 => enc_ares (array_tail a)
   | 10 => enc_ares (array_reverse a) | 11 => enc_ares (array_join (a :: others)) | _ => [[1]; array_flatten a]
   end.
+
+(* typed keys: op sequences over maps keyed by the op:same-key relation (spec) and by compare.same_key (code) *)
+Inductive top := TPut (k : key) (v : tvalue) | TRemove (ks : list key).
+Definition apply_top (eqk : key -> key -> bool) (m : tmap key) (o : top) : tmap key :=
+  match o with TPut k v => tput eqk m k v | TRemove ks => tremove eqk m ks end.
+Definition run_tops_with (eqk : key -> key -> bool) (ops : list top) (probes : list key) : list (list Z) :=
+  let r := fold_left (apply_top eqk) ops [] in
+  map (fun k => (if tcontains eqk r k then 1 else 0) :: tget eqk r k) probes ++ [[tsize r]].
+Definition run_tops (ops : list top) (probes : list key) : list (list Z) * list (list Z) :=
+  (run_tops_with same_key_impl ops probes, run_tops_with same_key_spec ops probes).
+Definition run_same (a b : key) : Z * Z :=
+  ((if same_key_impl a b then 1 else 0), (if same_key_spec a b then 1 else 0)).
